@@ -89,10 +89,34 @@ def k3shape (lf : List Node) : Bool :=
        | p :: _ => !(p.isAttrs && p.facts.slotsEff) &&
                    below.any (fun n => n.isAttrs && n.facts.slotsEff && !n.cls.fields.isEmpty))
 
+/-- a further base: an attrs class (attr.s / define / frozen) with at most `frozen` and `slots` passed, or a
+    plain class; no fields, nothing defined in the body -/
+def wfSide (c : Case) (s : Side) : Bool :=
+  let k := s.cls
+  k.eq == .unset && k.cmp == .unset && k.hash == .unset && k.unsafeHash == .unset && k.init == .unset &&
+  k.autoDetect == .unset && k.autoExc == .unset && k.cacheHash == .unset && k.getstateSetstate == .unset &&
+  flag3 k.frozen && flag3 k.slots && (k.api != .plain || (k.frozen == .unset && k.slots == .unset)) &&
+  k.ownHash == .no && !k.ownEq && !k.ownNe && !k.ownInit && k.fields.isEmpty &&
+  -- a diamond goes through a proper ancestor of the last class; through its direct parent only when the
+  -- further bases are listed first (otherwise CPython finds no consistent MRO)
+  (match s.via with
+   | some j => j + 2 < c.chain.length || (j + 2 == c.chain.length && c.sideFirst)
+   | none => true)
+
+def slottedCls (k : Cls) : Bool := k.api != .plain && (facts k false false).slotsEff
+
+/-- CPython refuses two bases with non-empty `__slots__` layouts (every slotted attrs class has at least
+    `__weakref__`): at most one slotted lineage among the bases of the last class, and none in a diamond -/
+def layoutOk (c : Case) : Bool :=
+  ((if c.chain.dropLast.any slottedCls then 1 else 0) + (c.side.filter (fun s => slottedCls s.cls)).length ≤ 1) &&
+  c.side.all (fun s => s.via.isNone || (!slottedCls s.cls && !c.chain.dropLast.any slottedCls))
+
 def wf (c : Case) : Bool :=
   let ns := nodesWith docOutcome c
   let L := layoutOf ns
   !c.chain.isEmpty && c.chain.all wfCls &&
+  -- multiple inheritance is a dimension of the class-level table only
+  (c.side.isEmpty || (c.side.all (wfSide c) && layoutOk c && !c.excBase && c.insts.isEmpty && c.ops.isEmpty)) &&
   distinct ((allFields c).map (·.name)) &&
   c.keyMap.length == c.eqc.length && c.hcode.length == c.eqc.length &&
   c.eqc.all (· < c.eqc.length) && c.keyMap.all (· < c.eqc.length) &&
